@@ -11,6 +11,8 @@ From RU Require Import Base.Prelude Base.Utf8 Base.Utf8Facts Model.AsciiSet Gen.
   Proofs.C06_List Proofs.C06_Steps Proofs.C01_EqRef Proofs.C01_EqPath Proofs.C01_EqOverflow
   Proofs.C01_EqAuthSpec Proofs.C01_EqAuthModel.
 
+Ltac ll := unfold nlen in *; repeat rewrite app_length in *; cbn [length] in *; lia.
+
 (* ================= the canonical records of the class ================= *)
 Definition spec_auth_url (sch un pw : list N) (sh : spec_host) (po : option N) (segs : list (list N))
            (q f : option (list N)) : spec_url :=
@@ -248,6 +250,126 @@ Proof.
       cbn [qf_text qf_qtext qf_ftext app]. rewrite ?app_nil_r, nlen_nil, N.add_0_r, N.eqb_refl. reflexivity.
   - (* query and fragment *)
     apply (wf_qf_generic s3 pt q f u); try reflexivity; assumption.
+Qed.
+
+
+Lemma au_ue_lt : is_nil pw = false -> nlen s0 + nlen un < nlen (ser u).
+Proof.
+  intros H. rewrite au_ser. unfold s4, s3, s2, s1. unfold cred_text. rewrite H, andb_false_r.
+  unfold nlen. repeat rewrite app_length. cbn [length]. lia.
+Qed.
+
+Lemma au_has_password : has_password_b u = negb (is_nil pw).
+Proof.
+  unfold has_password_b. rewrite au_has_authority. cbn [andb].
+  assert (username_end u = nlen s0 + nlen un) as -> by reflexivity.
+  assert (ser u = s0 ++ cred_text un pw ++ (ht ++ port_suffix po ++ pt ++ qf_text q f)) as EF.
+  { rewrite au_ser. unfold s4, s3, s2, s1. rewrite <- !app_assoc. reflexivity. }
+  pose proof au_after_cred as Hac. pose proof au_ue_lt as Hlt0.
+  destruct pw as [|b0 pw'] eqn:Epw; cbn [is_nil negb].
+  - destruct un as [|a0 un'] eqn:Eun.
+    + rewrite EF. cbn [cred_text is_nil andb app]. rewrite nlen_nil, N.add_0_r. rewrite byte_eqb_head.
+      rewrite Hac. apply andb_false_r.
+    + rewrite EF. unfold cred_text. cbn [is_nil andb].
+      assert (s0 ++ ((a0 :: un') ++ [] ++ [64]) ++ ht ++ port_suffix po ++ pt ++ qf_text q f
+              = (s0 ++ a0 :: un') ++ 64 :: (ht ++ port_suffix po ++ pt ++ qf_text q f)) as ->
+        by (repeat rewrite <- app_assoc; reflexivity).
+      rewrite <- nlen_app. rewrite byte_eqb_head. cbn [starts_with_cp N.eqb Pos.eqb]. apply andb_false_r.
+  - pose proof (Hlt0 eq_refl) as Hlt.
+    replace (nlen s0 + nlen un =? nlen (ser u)) with false by lia. cbn [negb andb].
+    rewrite EF. unfold cred_text. cbn [is_nil]. rewrite andb_false_r.
+    assert (s0 ++ (un ++ (58 :: b0 :: pw') ++ [64]) ++ ht ++ port_suffix po ++ pt ++ qf_text q f
+            = (s0 ++ un) ++ 58 :: ((b0 :: pw') ++ 64 :: (ht ++ port_suffix po ++ pt ++ qf_text q f))) as ->
+      by (repeat rewrite <- app_assoc; reflexivity).
+    rewrite <- nlen_app. apply byte_eqb_app.
+Qed.
+
+Theorem au_api : api_of_model dbg u = Some (spec_api_list shs (spec_auth_url sch un pw sh po segs q f)).
+Proof.
+  pose proof au_wf as W. destruct K as [Hsch Hht Hcol Hhi Hhp Hpo Hpt Hq].
+  pose proof s0_len as L0.
+  assert (nlen s1 = nlen s0 + nlen (cred_text un pw)) as L1 by (unfold s1; apply nlen_app).
+  assert (nlen s2 = nlen s1 + nlen ht) as L2 by (unfold s2; apply nlen_app).
+  assert (nlen s3 = nlen s2 + nlen (port_suffix po)) as L3 by (unfold s3; apply nlen_app).
+  assert (nlen s4 = nlen s3 + nlen pt) as L4 by (unfold s4; apply nlen_app).
+  rewrite (api_of_model_eval dbg u W). f_equal.
+  rewrite au_has_password.
+  unfold pidx. rewrite au_has_password, au_has_authority.
+  unfold piece.
+  assert (has_host u = match hi with HI_None => false | _ => true end) as EHH by reflexivity.
+  rewrite EHH.
+  change (scheme_end u) with (nlen sch). change (username_end u) with (nlen s0 + nlen un).
+  change (host_start u) with (nlen s1). change (host_end u) with (nlen s2). change (path_start u) with (nlen s3).
+  change (port u) with po. change (query_start u) with (qf_qs (nlen s4) q).
+  change (fragment_start u) with (qf_fs (nlen s4) q f). rewrite au_ser.
+  unfold spec_api_list, get_href, get_protocol, get_username, get_password, get_host, get_hostname,
+    get_port, get_pathname, get_search, get_hash, serialize_host_opt, serialize_path.
+  rewrite (serialize_auth shs sch un pw sh po segs q f false Hpo).
+  unfold spec_auth_url. cbn [su_scheme su_username su_password su_host su_port su_path su_query su_fragment].
+  rewrite <- Hht. fold pt. fold s0 s1 s2 s3 s4.
+  assert (match qf_qs (nlen s4) q with
+          | Some x => x
+          | None => match qf_fs (nlen s4) q f with Some y => y | None => nlen (s4 ++ qf_text q f) end
+          end = nlen s4) as EAP.
+  { destruct q as [x|]; [reflexivity|]. destruct f as [y|]; cbn [qf_qs qf_fs qf_qtext].
+    - unfold nlen at 2. cbn [length]. lia.
+    - unfold qf_text. cbn [qf_qtext qf_ftext app]. rewrite app_nil_r. reflexivity. }
+  assert (match qf_fs (nlen s4) q f with Some y => y | None => nlen (s4 ++ qf_text q f) end
+          = nlen (s4 ++ qf_qtext q)) as EAQ.
+  { destruct f as [y|]; cbn [qf_fs]; [symmetry; apply nlen_app|].
+    unfold qf_text. cbn [qf_ftext]. rewrite app_nil_r. reflexivity. }
+  rewrite EAP, EAQ.
+  apply list10_eq.
+  - (* href *) unfold qf_text. reflexivity.
+  - (* protocol *)
+    unfold s4, s3, s2, s1, s0, auth_s0. rewrite <- !app_assoc.
+    replace (nlen sch + 1) with (nlen (sch ++ [58])) by (clear; ll).
+    rewrite app_assoc. apply nfirstn_app_len.
+  - (* username *)
+    replace (nlen sch + 3) with (nlen s0) by lia. rewrite <- nlen_app.
+    assert (s4 ++ qf_text q f = s0 ++ un ++ (cred_tail un pw ++ ht ++ port_suffix po ++ pt ++ qf_text q f)) as ->.
+    { unfold s4, s3, s2, s1. rewrite cred_text_split. rewrite <- !app_assoc. reflexivity. }
+    apply piece_mid.
+  - (* password *)
+    destruct pw as [|b0 pw'] eqn:Epw; cbn [is_nil negb]; [reflexivity|].
+    assert (s4 ++ qf_text q f
+            = (s0 ++ un ++ [58]) ++ (b0 :: pw') ++ (64 :: ht ++ port_suffix po ++ pt ++ qf_text q f)) as ->.
+    { unfold s4, s3, s2, s1, cred_text. cbn [is_nil]. rewrite andb_false_r. repeat rewrite <- app_assoc. reflexivity. }
+    replace (nlen s0 + nlen un + 1) with (nlen (s0 ++ un ++ [58])) by ll.
+    replace (nlen s1 - 1) with (nlen ((s0 ++ un ++ [58]) ++ b0 :: pw')).
+    2:{ rewrite L1. unfold cred_text. cbn [is_nil]. rewrite andb_false_r. clear. ll. }
+    apply piece_mid.
+  - (* host *)
+    assert (match po with Some p => nlen s2 + 1 + count_digits p | None => nlen s2 end = nlen (s1 ++ ht ++ port_suffix po)) as ->.
+    { rewrite app_assoc. fold s2. rewrite nlen_app. destruct po as [p|]; cbn [port_suffix].
+      - rewrite (count_digits_decimal p (Hpo p eq_refl)), nlen_cons. lia.
+      - rewrite nlen_nil. lia. }
+    assert (s4 ++ qf_text q f = s1 ++ (ht ++ port_suffix po) ++ (pt ++ qf_text q f)) as ->.
+    { unfold s4, s3, s2. rewrite <- !app_assoc. reflexivity. }
+    rewrite piece_mid. destruct po as [p|]; cbn [port_suffix]; [|apply app_nil_r].
+    rewrite (decimal_serialize p (Hpo p eq_refl)). reflexivity.
+  - (* hostname *)
+    assert (nfirstn (nlen s2 - nlen s1) (nskipn (nlen s1) (s4 ++ qf_text q f)) = ht) as E.
+    { assert (s4 ++ qf_text q f = s1 ++ ht ++ (port_suffix po ++ pt ++ qf_text q f)) as ->.
+      { unfold s4, s3, s2. rewrite <- !app_assoc. reflexivity. }
+      unfold s2. apply piece_mid. }
+    destruct hi; try exact E. symmetry. apply Hhi. reflexivity.
+  - (* port *)
+    destruct po as [p|]; cbn [port_suffix] in *.
+    + rewrite (count_digits_decimal p (Hpo p eq_refl)).
+      assert (s4 ++ qf_text q f = (s2 ++ [58]) ++ decimal p ++ (pt ++ qf_text q f)) as ->.
+      { unfold s4, s3. rewrite <- !app_assoc. reflexivity. }
+      replace (nlen s2 + 1) with (nlen (s2 ++ [58])) by (clear; ll).
+      rewrite <- nlen_app. rewrite piece_mid. apply decimal_serialize. apply Hpo. reflexivity.
+    + rewrite N.sub_diag. reflexivity.
+  - (* pathname *)
+    assert (s4 ++ qf_text q f = s3 ++ pt ++ qf_text q f) as -> by (unfold s4; rewrite <- app_assoc; reflexivity).
+    exact (piece_mid s3 pt (qf_text q f)).
+  - (* search *)
+    rewrite (nlen_app s4). replace (nlen s4 + nlen (qf_qtext q) - nlen s4) with (nlen (qf_qtext q)) by lia.
+    rewrite nskipn_app_len. unfold qf_text. rewrite nfirstn_app_len. apply q_trim_qtext.
+  - (* hash *)
+    unfold qf_text. rewrite app_assoc. rewrite nskipn_app_len. apply q_trim_ftext.
 Qed.
 
 End One.
